@@ -242,14 +242,14 @@ def check_solution(case, dump, val, objective, V, label):
         if a is not None and sum(a.values()) != case["nodes"][i]["machines"]:
             V.append(Violation("choose_amount", f"[{label}] Choose {i} satisfied with allocation {a}, demand {case['nodes'][i]['machines']}; case={case}", "strl.choose_amount" + tag))
             return False
-    valid, util, why = strl.evaluate(case, dec)
+    valid, util, why = strl.evaluate(case, dec, live=live_nodes(case, dump))
     if not valid:
         kinds = sorted({w.split(" ")[0].lower() for w in why})
         cause = ""
         if "lessthan" in kinds and any(n["kind"] == "MALLEABLE" for n in case["nodes"]):
             # is the ordering respected if a MalleableChoose ended at the start of its last slot (F41)?  (The capacity-purge
             # pass trusts that ordering and drops the capacity constraint of the two "ordered" expressions.)
-            _ok, _u, why2 = strl.evaluate(case, dec, malleable_end_shift=True)
+            _ok, _u, why2 = strl.evaluate(case, dec, malleable_end_shift=True, live=live_nodes(case, dump))
             left = sorted({w.split(" ")[0].lower() for w in why2})
             if not left or (left == ["capacity"] and "capacity_purge" in case.get("passes", [])):
                 cause = ".malleable_end_is_start_of_last_slot"
